@@ -5,6 +5,9 @@ import ThriftVerif.Facts.ExpectGen
 #print axioms ThriftVerif.Properties.C06.words_have_no_underscore
 #print axioms ThriftVerif.Properties.C06.goCase_collisions
 #print axioms ThriftVerif.Properties.C06.mangle_collision
+#print axioms ThriftVerif.Properties.C06.mangle_injective_on_plain_names
+#print axioms ThriftVerif.Properties.C06.mangle_injective_on_generated_names
+#print axioms ThriftVerif.Properties.C06.go_names_have_no_underscore
 #print axioms ThriftVerif.Facts.ExpectGen.reservedIdentifiers_ok
 #print axioms ThriftVerif.Facts.ExpectGen.commonInitialisms_ok
 #print axioms ThriftVerif.Facts.ExpectGen.initialisms_model_ok
